@@ -35,6 +35,8 @@ BASES = [
     '@font-face { font-family: "F"; src: url(f.woff) } @foo bar;',
     'x { top: 0 } y z { left: 1px; color: blue }',
     '@namespace "http://d.example"; @media all { e { top: 0 } } f[g="h"]::before { content: "i" }',
+    'v { color: rgb(1, 2, 3); width: 1px; background: url(x.png) #fff; content: "s" attr(t); margin: calc(1px + 2px) var(m) } '
+    '@media /*c*/ all { w { top: 0 } } @media tv, print and (color) { u { left: 0 } }',
 ]
 
 
@@ -126,14 +128,30 @@ def M():
         ('property.value=', prop, setter('value'), [('(', False), ('1px (', True), ('a ! b', True)]),
         ('property.priority=', prop, setter('priority'), [('nope', False), ('! nope', True), ('important x', True)]),
         ('propertyValue.cssText=', lambda s: prop(s).propertyValue, setter('cssText'), [('1px (', True), (')', False), ('a,,b', True), ('rgb(1,2', True)]),
+        ('value[0].cssText=', lambda s: prop(s).propertyValue[0], setter('cssText'),
+         [('rgb(1, 50%, 3)', True), ('hsl(120, 2, 3)', True), ('rgba(10%, 20%, 30%, 40%)', True), ('rgb(1,2', True), ('1px 2px', True), ('(', False), ('', False)]),
+        ('value[1].cssText=', lambda s: style(s).style.getProperties(all=True)[1].propertyValue[0], setter('cssText'),
+         [('1px 2px', True), ('red', False), ('1 px', True), ('(', False)]),
+        ('uri-value.cssText=', lambda s: style(s).style.getProperties(all=True)[2].propertyValue[0], setter('cssText'),
+         [('url(a b)', True), ('url(', False), ('red', False), ('url(x) y', True)]),
+        ('calc-value.cssText=', lambda s: style(s).style.getProperties(all=True)[4].propertyValue[0], setter('cssText'),
+         [('calc(1px +)', True), ('calc(1px+2px)', True), ('calc(', False), ('f(1)', False)]),
+        ('var-value.cssText=', lambda s: style(s).style.getProperties(all=True)[4].propertyValue[1], setter('cssText'),
+         [('var()', True), ('var(1)', True), ('var(a, )', True), ('x', False)]),
+        ('function-value.cssText=', lambda s: style(s).style.getProperties(all=True)[3].propertyValue[1], setter('cssText'),
+         [('attr(t', True), ('attr(t))', True), ('attr(;)', True), ('1px', False)]),
         ('mediaRule.cssText=', media, setter('cssText'),
          [('@media print and { a { top: 0 } }', True), ('@media tv { a { top: 0 } @import "x"; }', True), ('@media tv { a { top: 0 } b,,c { left: 0 } }', True),
           ('@media tv { a { top: 0 }', True), ('a { top: 0 }', False), ('@media tv { zz|a { top: 0 } }', True), ('@media tv, , print { a {} }', True)]),
         ('mediaRule.insertRule', media, lambda t, a: t.insertRule(*a), [(('@import "x";', 0), False), (('a {', 0), False), (('a { top: 0 }', 99), False), (('@font-face { font-family: "F" }', 0), False)]),
         ('mediaRule.deleteRule', media, lambda t, a: t.deleteRule(a), [(99, False)]),
         ('media.mediaText=', lambda s: media(s).media, setter('mediaText'), [('tv, print and', True), ('tv, 1x', True), ('tv,, print', True), ('', False), ('tv and (color', True)]),
-        ('media.appendMedium', lambda s: media(s).media, lambda t, a: t.appendMedium(a), [('1x', False), ('print and', True), ('tv, print', True)]),
-        ('media.deleteMedium', lambda s: media(s).media, lambda t, a: t.deleteMedium(a), [('braille', False), ('nope', False)]),
+        ('media.appendMedium', lambda s: media(s).media, lambda t, a: t.appendMedium(a), [('1x', False), ('print and', True), ('tv, print', True), ('all', False), ('ALL', False), ('tv', False), ('print', False)]),
+        ('media.deleteMedium', lambda s: media(s).media, lambda t, a: t.deleteMedium(a), [('braille', False), ('nope', False), ('print and (color)', False)]),
+        ('media2.appendMedium', lambda s: [r for r in walk(s.cssRules) if r.type == R.MEDIA_RULE][1].media, lambda t, a: t.appendMedium(a),
+         [('1x', False), ('tv and', True), ('all and', True)]),
+        ('media2.mediaText=', lambda s: [r for r in walk(s.cssRules) if r.type == R.MEDIA_RULE][1].media, setter('mediaText'),
+         [('tv, print and', True), ('all, 1x', True)]),
         ('media[0]=', lambda s: media(s).media, lambda t, a: t.__setitem__(0, a), [('print and', True), ('1x', False)]),
         ('mediaQuery.mediaText=', lambda s: media(s).media[0], setter('mediaText'), [('tv and', True), ('1x', False), ('tv and (color', True), ('tv print', True)]),
         ('mediaQuery.mediaType=', lambda s: media(s).media[0], setter('mediaType'), [('nope', False), ('1x', False)]),
@@ -187,8 +205,14 @@ def make_sheet(base, edits):
 
 
 def check_table(case, ctx):
-    name, locate, call, args = MUTATORS[case['mutator']]
-    arg, late = args[case['arg'] % len(args)]
+    mi = case['mutator']
+    if isinstance(mi, str):  # witnesses name the mutator and the argument
+        mi = next(i for i, m in enumerate(MUTATORS) if m[0] == mi)
+    name, locate, call, args = MUTATORS[mi]
+    ai = case['arg']
+    if isinstance(ai, str):
+        ai = next(i for i, a in enumerate(args) if repr(a[0]) == ai)
+    arg, late = args[ai % len(args)]
     saved = cssutils.log.raiseExceptions
     try:
         sheet = make_sheet(case['base'], case['edits'])
